@@ -9,7 +9,7 @@
 (* RELATIONS the property text demands between the things a client       *)
 (* observes.  One observation = one client step:                          *)
 (*                                                                         *)
-(*   t.op      "Update" | "Get" | "OpenPull" | "CloseStream"              *)
+(*   t.op      "Update" | "Get" | "OpenPull" | "CloseStream" | "Other"      *)
 (*   t.pre     unmasked Get immediately before the step [ok, v]           *)
 (*   t.post    unmasked Get immediately after the step  [ok, v]           *)
 (*   t.code    status of the step's RPC ("OK", an error code, "PANIC")    *)
@@ -55,6 +55,10 @@ StreamFailsOnUpdate(t, s) ==
     \* appears on every open stream whose reader keeps up (the harness reads everything at once
     \* and waits >= 3 s): a change carrying the response's value must have been read
     If(\E k \in 1..Len(s.msgs) : s.msgs[k].v = t.resp, "update-missing-on-stream")
+    \* ... every OPEN stream: the client has not closed this one and the record it addresses still exists
+    \* (this Update of it succeeded), so the server must not have ended it - e.g. because some other
+    \* record of the same collection was deleted
+    \cup If(s.ended = "", "stream-ended-while-its-record-exists")
     \* ... carrying the name given in the Pull request (every change read while waiting for this
     \* update stems from an Update - the initial value was consumed when the stream was opened)
     \cup If(\A k \in 1..Len(s.msgs) : s.msgs[k].name = s.name, "stream-change-name")
@@ -119,6 +123,10 @@ Fails(t) ==
     [] t.op = "Get"         -> GetFails(t)
     [] t.op = "OpenPull"    -> OpenFails(t) \cup ReadOnlyFails(t)
     [] t.op = "CloseStream" -> ReadOnlyFails(t)
+    \* "Other": another record of the collection that holds the addressed record was deleted or created
+    \* (servers whose Get/Update/Pull address one record of a collection); the addressed record is a
+    \* register of its own.  What this does to the open streams shows at the next Update.
+    [] t.op = "Other"       -> ReadOnlyFails(t)
     [] OTHER                -> {"unknown-op"}
 
 \* clauses that are not a verdict by themselves (see OpenFails)
